@@ -17,6 +17,9 @@ K1 = {
     "remainder_shape_int":      ("quick", ["C09"], "proof", None, 600),
     "power_int":                ("thorough", ["C09"], "proof", None, 3600),   # measured 587 s
     "power_undefined_int":      ("quick", ["C09"], "proof", None, 600),
+    "power_no_panic_int":       ("quick", ["C09"], "proof", None, 900),
+    "zero_divisor_is_none":     ("quick", ["C09"], "proof", None, 900),
+    "results_are_finite":       ("quick", ["C09"], "proof", None, 1500),
     "bitwise_and_int":          ("quick", ["C09"], "proof", None, 600),
     "bitwise_or_int":           ("quick", ["C09"], "proof", None, 600),
     "bitwise_xor_int":          ("quick", ["C09"], "proof", None, 600),
@@ -203,7 +206,12 @@ def run(unit, tier, props, repo):
                     json.dump(cache, fh)
             if vals:
                 hexes = ["".join(f"{b:02x}" for b in v) for v in vals]
-                extra = {"counterexample": {"harness": h, "values_le_bytes": vals}, "replay_cmd": f"bin/check --replay-k1 {unit} {h} " + " ".join(hexes)}
+                # replay the verifier's values against the real crates, outside the verifier
+                rp = c.get("replayed")
+                if rp is None:
+                    rp = replay_k1_capture(unit, h, hexes, repo)
+                    c["replayed"] = rp
+                extra = {"counterexample": {"harness": h, "values_le_bytes": vals, "replayed_on_real_code": rp}, "replay_cmd": f"bin/check --replay-k1 {unit} {h} " + " ".join(hexes)}
         if table[h][1]:
             st = "failed" if (p["verdict"] == "FAILED" and contract_fail) else "discharged"
             res["obligations"].append(obl(h, "contract", table[h][2], st, detail=[{"message": m} for m in contract_fail] or None, checks=p.get("checks"), solver_s=p.get("time_s"), **(extra if st == "failed" else {})))
@@ -213,6 +221,22 @@ def run(unit, tier, props, repo):
                       {"name": f"{unit}: i32 -> f64 conversion is exact", "why": "used to read the mixed integer/float order as the order of the denoted reals", "clauses": []}]
     res["wall_s"] = time.time() - t0
     return res
+
+
+def replay_k1_capture(unit, h, hexes, repo):
+    """Run the replay binary; returns {"rc": int, "line": str}. rc 1 = the real code violates the contract / panics on these values."""
+    crate = prepare(unit, repo)
+    env = _env(unit, repo)
+    env["CARGO_TARGET_DIR"] = env["CARGO_TARGET_DIR"] + "-replay"
+    b = subprocess.run(["cargo", "build", "--offline", "--bin", "replay_k1"], cwd=crate, env=env, capture_output=True, text=True)
+    if b.returncode != 0:
+        return {"rc": 2, "line": "replay build failed: " + b.stderr[-400:]}
+    exe = os.path.join(env["CARGO_TARGET_DIR"], "debug", "replay_k1")
+    try:
+        p = subprocess.run([exe, h] + hexes, capture_output=True, text=True, timeout=60)
+    except subprocess.TimeoutExpired:
+        return {"rc": 2, "line": "replay timed out"}
+    return {"rc": p.returncode, "line": (p.stdout.strip().split("\n") or [""])[-1]}
 
 
 def replay_k1(unit, h, hexes, repo):
